@@ -409,3 +409,90 @@ func haltRecoveryFails(c *common.Ctx, r *common.Rand) error {
 	db.ReleaseHaltLock(ctx, 61)
 	return nil
 }
+
+// haltedModeSwitch: a WAL-mode database is halted for a replica; the holder switches the journal mode back
+// (journal_mode=DELETE) and the switch is forwarded; from then on the database is a rollback-journal database on the
+// primary too. A local connection that wants to read it must still be kept out while the holder's next forwarded
+// transaction is written into the file.
+func haltedModeSwitch(c *common.Ctx, r *common.Rand) error {
+	dir, err := os.MkdirTemp(c.OutDir, "c11m-")
+	if err != nil {
+		return err
+	}
+	defer os.RemoveAll(dir)
+	clu := cluster.New(dir, 2*time.Second)
+	clu.Opts = func(name string, s *litefs.Store) {
+		s.HaltLockTTL = time.Minute
+		s.HaltLockMonitorInterval = time.Hour
+	}
+	defer clu.Close()
+	p, err := clu.Start("p", true)
+	if err != nil {
+		return err
+	}
+	if clu.WaitPrimary(5*time.Second) == nil {
+		return fmt.Errorf("no primary")
+	}
+	ps := 512
+	h := hist.NewOn(c, r.Fork(), hist.Config{PageSize: ps, AllowWAL: true}, p.Store, p.Exits, "db", nil, 0, false)
+	for _, st := range []hist.Step{
+		{Op: "rtx", Writes: map[uint32]uint64{1: 1, 2: 2, 3: 3}, NewSize: 3, ToWAL: true},
+		{Op: "wtx", Frames: [][2]uint64{{2, 12}}, NewSize: 3},
+	} {
+		if ob := h.Exec(st); ob.Err != "" || ob.Panic != "" {
+			return fmt.Errorf("setup: %s%s", ob.Err, ob.Panic)
+		}
+	}
+	db := p.Store.DB("db")
+	bg := context.Background()
+	const lockID = 91
+	if _, err := db.AcquireHaltLock(bg, lockID); err != nil {
+		return fmt.Errorf("halt: %v", err)
+	}
+	defer db.ReleaseHaltLock(bg, lockID)
+	post := func(body []byte) int {
+		req, _ := http.NewRequest("POST", fmt.Sprintf("%s/tx?name=db&lockID=%d", p.Server.URL(), lockID), bytes.NewReader(body))
+		req.Header.Set("Litefs-Id", litefs.FormatNodeID(0x33))
+		resp, err := http.DefaultClient.Do(req)
+		if err != nil {
+			return 0
+		}
+		_, _ = io.Copy(io.Discard, resp.Body)
+		resp.Body.Close()
+		return resp.StatusCode
+	}
+	// the forwarded journal-mode switch: page 1 with versions 1/1
+	im, err := lfs.ReadImage(h.DBDir())
+	if err != nil || len(im.Pages) == 0 {
+		return fmt.Errorf("image: %v", err)
+	}
+	pos := db.Pos()
+	p1 := append([]byte(nil), im.Pages[0]...)
+	lfs.SetHeader(p1, ps, uint32(len(im.Pages)), false)
+	nim := im.Clone()
+	nim.Pages[0] = p1
+	if code := post(fwdLTX(uint32(ps), uint32(len(nim.Pages)), uint64(pos.TXID)+1, uint64(pos.PostApplyChecksum), nim.Checksum(), map[uint32][]byte{1: p1})); code != 200 {
+		return nil // the switch is not accepted: nothing to judge
+	}
+	c.Evaluations++
+	c.Distinct("halted-mode-switch")
+	rep := map[string]any{"kind": "halted-mode-switch"}
+	// a local connection opens the (now rollback-journal) database and starts to read
+	const owner = 8
+	got := db.TryRLocks(bg, owner, []litefs.LockType{litefs.LockTypePending}) && db.TryRLocks(bg, owner, []litefs.LockType{litefs.LockTypeShared})
+	_ = db.Unlock(bg, owner, []litefs.LockType{litefs.LockTypePending})
+	if got {
+		// ... and the holder's next transaction is written underneath it
+		pos = db.Pos()
+		tgt := uint32(len(nim.Pages))
+		pg := lfs.MakePage(ps, tgt, 929292, tgt, false)
+		n2 := nim.Clone()
+		n2.Pages[tgt-1] = pg
+		code := post(fwdLTX(uint32(ps), tgt, uint64(pos.TXID)+1, uint64(pos.PostApplyChecksum), n2.Checksum(), map[uint32][]byte{tgt: pg}))
+		if code == 200 && db.Pos().TXID == pos.TXID+1 {
+			c.Violate("C11:halted-mode-switch:apply-under-reader", "a halt lock granted on a WAL-mode database holds the database file's SHARED lock only shared; after a forwarded switch to rollback-journal mode a local connection got PENDING and SHARED and started to read, and the holder's next forwarded transaction was written into the database file underneath it", rep)
+		}
+	}
+	_ = db.Unlock(bg, owner, []litefs.LockType{litefs.LockTypeShared})
+	return nil
+}
